@@ -192,3 +192,237 @@ def eval_int(t, size_cap_bits=200000):
     if len(vals) == 1:
         return int_unop(op, vals[0])
     raise Unmodelled(op)
+
+
+# ---------------------------------------------------------------- general evaluation (C02, C03, C04)
+
+TRANSCENDENTAL = {'exp', 'log', 'sin', 'cos', 'tan', 'asin', 'acos', 'atan', 'atan2', '**', '^'}
+
+
+class Approx:
+    """a float result for which IEEE-754 does not mandate correct rounding: the
+    engine may differ from the reference by at most `ulps`."""
+    def __init__(self, x, ulps=1):
+        self.x = x
+        self.ulps = ulps
+
+
+class OneOf:
+    """any of several acceptable exact results"""
+    def __init__(self, xs):
+        self.xs = list(xs)
+
+
+def _ff(fn, *xs):
+    try:
+        r = fn(*xs)
+    except OverflowError:
+        raise ArithError(FLOAT_OVERFLOW)
+    except ValueError:
+        raise ArithError(UNDEFINED)
+    return check_float(r)
+
+
+def round_half_away(x):
+    r = Fraction(x)
+    if r >= 0:
+        return math.floor(r + Fraction(1, 2))
+    return -math.floor(-r + Fraction(1, 2))
+
+
+def is_zero(x):
+    return x == 0
+
+
+def num_cmp(a, b):
+    """C04 semantics: exact between ints/rationals; via double when a float is involved.
+    returns -1/0/1; raises ArithError(float_overflow) when promotion overflows"""
+    if isinstance(a, float) or isinstance(b, float):
+        fa, fb = to_float(a), to_float(b)
+        return (fa > fb) - (fa < fb)
+    return (a > b) - (a < b)
+
+
+def apply_num(op, vals):
+    """vals: Python numbers (int | Fraction | float). Returns number | Approx | OneOf."""
+    n = len(vals)
+    anyf = any(isinstance(v, float) for v in vals)
+    if n == 1:
+        a = vals[0]
+        if op == '-':
+            return -a
+        if op == '+':
+            return a
+        if op == 'abs':
+            return abs(a)
+        if op == 'sign':
+            if isinstance(a, float):
+                return math.copysign(1.0, a) if a != 0 else 0.0
+            return (a > 0) - (a < 0)
+        if op == 'float':
+            return to_float(a)
+        if op == 'float_integer_part':
+            return float(math.trunc(to_float(a)))
+        if op == 'float_fractional_part':
+            f = to_float(a)
+            return math.modf(f)[0]
+        if op in ('truncate', 'round', 'ceiling', 'floor'):
+            if isinstance(a, int):
+                return a
+            if op == 'truncate':
+                return math.trunc(a)
+            if op == 'floor':
+                return math.floor(a)
+            if op == 'ceiling':
+                return math.ceil(a)
+            return round_half_away(a)
+        if op in ('sqrt', 'log') and a < 0:
+            # undefined; an operand too large to promote may report the overflow instead
+            errs = [UNDEFINED]
+            try:
+                to_float(a)
+            except ArithError:
+                errs.append(FLOAT_OVERFLOW)
+            raise ArithError(errs)
+        if op == 'sqrt':
+            f = to_float(a)
+            return _ff(math.sqrt, f)
+        if op == 'log':
+            f = to_float(a)
+            if f == 0:
+                raise ArithError([UNDEFINED, FLOAT_OVERFLOW])
+            return Approx(_ff(math.log, f))
+        if op in ('asin', 'acos'):
+            f = to_float(a)
+            if abs(f) > 1:
+                raise ArithError(UNDEFINED)
+            return Approx(_ff(getattr(math, op), f))
+        if op in ('exp', 'sin', 'cos', 'tan', 'atan'):
+            f = to_float(a)
+            return Approx(_ff(getattr(math, op), f))
+        if op == '\\':
+            if isinstance(a, int):
+                return ~a
+            raise Unmodelled('\\ on non-int')
+        raise Unmodelled(op)
+    a, b = vals
+    if op in ('+', '-', '*'):
+        if anyf:
+            fa, fb = to_float(a), to_float(b)
+            r = fa + fb if op == '+' else (fa - fb if op == '-' else fa * fb)
+            return check_float(r)
+        return a + b if op == '+' else (a - b if op == '-' else a * b)
+    if op == '/':
+        if is_zero(b):
+            raise ArithError(ZERO_DIV)
+        fa, fb = to_float(a), to_float(b)
+        if fb == 0:
+            # a non-zero rational/integer never promotes to 0.0; fb == 0 only if b == 0
+            raise ArithError(ZERO_DIV)
+        r = check_float(fa / fb)
+        if not anyf:
+            exact = to_float(Fraction(a) / Fraction(b))
+            if exact != r:
+                return OneOf([r, exact])
+        return r
+    if op in ('**', '^'):
+        if op == '^' and not anyf:
+            if isinstance(a, int) and isinstance(b, int):
+                return int_binop('^', a, b, mkint(a), mkint(b))
+            raise Unmodelled('rational ^')
+        fa, fb = to_float(a), to_float(b)
+        if fa == 0 and fb < 0:
+            raise ArithError([UNDEFINED, ZERO_DIV])
+        if fa < 0 and fb != math.floor(fb):
+            raise ArithError(UNDEFINED)
+        return Approx(_ff(math.pow, fa, fb))
+    if op == 'atan2':
+        if is_zero(a) and is_zero(b):
+            raise ArithError(UNDEFINED)
+        return Approx(_ff(math.atan2, to_float(a), to_float(b)))
+    if op in ('min', 'max'):
+        c = num_cmp(a, b)
+        if c == 0:
+            if isinstance(a, float):
+                return a
+            if isinstance(b, float):
+                return b
+            return a
+        if op == 'max':
+            return a if c > 0 else b
+        return a if c < 0 else b
+    if op == 'rdiv':
+        if anyf:
+            raise Unmodelled('rdiv float')
+        if is_zero(b):
+            raise ArithError(ZERO_DIV)
+        return Fraction(a) / Fraction(b)
+    if isinstance(a, int) and isinstance(b, int):
+        return int_binop(op, a, b, mkint(a), mkint(b))
+    raise Unmodelled(op)
+
+
+def eval_num(t):
+    """Evaluates a tree with number leaves. Returns number | Approx | OneOf (only at the root:
+    a non-exact intermediate makes the whole case Unmodelled unless the caller asked for ulps)."""
+    k = t[0]
+    if k in ('i', 'r', 'f'):
+        return num_of(t)
+    if k == 'a':
+        if t[1] == 'pi':
+            return math.pi
+        if t[1] == 'e':
+            return math.e
+        if t[1] == 'epsilon':
+            return 2.220446049250313e-16
+        raise Unmodelled(t[1])
+    if k != 'c':
+        raise Unmodelled(repr(t))
+    vals = []
+    errs = set()
+    for a in t[2]:
+        try:
+            v = eval_num(a)
+            if isinstance(v, (Approx, OneOf)):
+                raise Unmodelled('inexact intermediate')
+            vals.append(v)
+        except ArithError as e:
+            errs |= e.formals
+            vals.append(None)
+    if errs:
+        raise ArithError(errs)
+    return apply_num(t[1], vals)
+
+
+def ulp_distance(a, b):
+    """distance in units in the last place between two finite doubles"""
+    def key(x):
+        bts = f2bits(x)
+        return bts if bts < (1 << 63) else (1 << 63) - bts
+    return abs(key(a) - key(b))
+
+
+def result_matches(model, obs_term):
+    """model: number | Approx | OneOf; obs_term: number term. -> (ok, ulps_off)"""
+    if isinstance(model, OneOf):
+        for m in model.xs:
+            ok, u = result_matches(m, obs_term)
+            if ok:
+                return True, u
+        return False, None
+    if isinstance(model, Approx):
+        if obs_term[0] != 'f':
+            return False, None
+        d = ulp_distance(model.x, bits2f(obs_term[1]))
+        return d <= model.ulps, d
+    if isinstance(model, float):
+        if obs_term[0] != 'f':
+            return False, None
+        o = bits2f(obs_term[1])
+        if model == 0 and o == 0:
+            return True, 0      # the sign of zero is not observable through the printer
+        return f2bits(model) == obs_term[1], 0
+    try:
+        return term_of(model) == obs_term, 0
+    except Unmodelled:
+        return False, None
